@@ -37,7 +37,7 @@ type c17Case struct {
 	BA     int    `json:"ba,omitempty"`
 	BS     int    `json:"bs,omitempty"`
 	PKind  string `json:"pkind,omitempty"`  // nil | default | generic-garbage | foreign
-	Frames string `json:"frames,omitempty"` // ok | zero | empty | short | nilpd | nilinfo
+	Frames string `json:"frames,omitempty"` // ok | zero | empty | short | short1..3 | ok+short | ok+short1 | ok+empty | nilpd | nilinfo
 }
 
 type c17 struct{}
@@ -105,7 +105,7 @@ func (c17) Build(tier string, seed uint64) []any {
 	k := 0
 	for _, ts := range c10Syntaxes {
 		for _, pk := range []string{"nil", "default", "generic-garbage", "foreign"} {
-			for _, fr := range []string{"ok", "zero", "empty", "short", "short1", "short2", "short3", "nilpd", "nilinfo"} {
+			for _, fr := range []string{"ok", "zero", "empty", "short", "short1", "short2", "short3", "ok+short", "ok+short1", "ok+empty", "nilpd", "nilinfo"} {
 				for _, geo := range [][6]int{{8, 8, 8, 8, 1, 0}, {7, 5, 16, 12, 1, 0}, {5, 4, 8, 8, 3, 0}, {0, 5, 8, 8, 1, 0}, {5, 0, 16, 16, 1, 1}, {4, 4, 8, 8, 0, 0}, {4, 4, 8, 8, 2, 0}, {4, 4, 8, 8, 4, 0},
 					{4, 4, 0, 0, 1, 0}, {4, 4, 1, 1, 1, 0}, {4, 4, 32, 32, 1, 0}, {4, 4, 16, 17, 1, 0}, {4, 4, 8, 0, 1, 0}, {65535, 1, 8, 8, 1, 0}, {4, 4, 16, 16, 5, 0}, {3, 3, 24, 24, 1, 0}, {4, 4, 32, 32, 4, 0}, {2, 2, 64, 64, 3, 0}, {2, 2, 16, 16, 9, 0}, {3, 2, 16, 8, 1, 0}} {
 					k++
@@ -295,7 +295,16 @@ func (c17) Exec(d any) mon.Result {
 		p := jpeg2000.DefaultEncodeParams(c.W, c.H, c.C, c.P, false)
 		p.NumLevels = c.Par
 		p.CodeBlockWidth, p.CodeBlockHeight = c.CB, c.CB
-		stream, err = jpeg2000.NewEncoder(p).Encode(buf)
+		enc := jpeg2000.NewEncoder(p)
+		// every other tuple reaches the call on an Encoder object that has already encoded one
+		// full-size frame (state kept between calls must not replace the argument checks)
+		if need := c.need(); (c.W+c.H+c.C+c.P+len(buf))%2 == 0 && need > 0 && need <= 1<<16 && int64(len(buf)) != need {
+			func() {
+				defer func() { _ = recover() }()
+				_, _ = enc.Encode(make([]byte, need))
+			}()
+		}
+		stream, err = enc.Encode(buf)
 	}
 	reject, why := c.mustReject(len(buf))
 	if reject {
@@ -385,6 +394,15 @@ func c17Codec(c *c17Case, res mon.Result) mon.Result {
 		} else {
 			src = NewPD(info, []byte{})
 		}
+	case "ok+short", "ok+short1", "ok+empty": // a valid first frame followed by an unusable one
+		second := []byte{}
+		switch {
+		case c.Frames == "ok+short" && len(frame) > 1:
+			second = frame[:len(frame)/2]
+		case c.Frames == "ok+short1" && len(frame) > 1:
+			second = frame[:len(frame)-1]
+		}
+		src = NewPD(info, frame, second)
 	case "nilpd":
 		src = nil
 	case "nilinfo":
